@@ -407,6 +407,8 @@ func round8(c *Ctx, r *Report, prop string) {
 	case "C11":
 		r.Rule("C11.R12", "the API layer never turns a failure into success: an error known non-nil is looked at before any return that does not carry an error, results of a failed call are not used, and when a callee succeeds the caller can", 10)
 		errorDiscipline(c, r, "C11.R12", "services", "cluster", "storage")
+		r.Rule("C11.R16", "every worker of a batch fan-out gets its own partition and items: no goroutine closure captures a loop variable (borrowed from C17.R1; the module's language version shares loop variables between iterations)", 1)
+		borrow(c, r, "C17", "C17.R1", "C11.R16", "go-closure")
 		r.Rule("C11.R15", "every applied proposal delivers its outcome: an apply function notifies under the id it was handed on every path that returns nil", 6)
 		applyFunctionsAlwaysNotify(c, r, "C11.R15")
 		r.Rule("C11.R14", "a write path returns success only behind a raft proposal or a forwarded call", 6)
